@@ -76,7 +76,7 @@ var hsNames = [3]string{"C0S0", "C1S1", "C2S2"}
 // when its bytes have been written, a reader that wants more fails at once (NoBlock).
 // lockstep: every message is read by the peer as soon as it can (after the write, or after the peer's own
 // handshake if that is still going on); otherwise all writes first, then all reads.
-func runSession(c *rp.Ctx, cs sessionCase, seg string, lockstep bool) (res *failure) {
+func runSession(c *rp.Ctx, idx int, cs sessionCase, seg string, lockstep bool) (res *failure) {
 	a, b := transport.NewPair()
 	a.In.Seg = transport.SegmenterByName(seg, int64(c.Seed)*7919+1)
 	b.In.Seg = transport.SegmenterByName(seg, int64(c.Seed)*7919+2)
@@ -127,6 +127,10 @@ func runSession(c *rp.Ctx, cs sessionCase, seg string, lockstep bool) (res *fail
 		got, err := r.ReadMessage()
 		if err == nil {
 			kept = append(kept, held{k, s, got})
+			if len(got.Payload) <= 70000 {
+				// ... and after every later case of the pass (a buffer pooled across connections)
+				c.Hold(idx, fmt.Sprintf("payload of message id %d read by %s", s.M.ID, peer[s.E]), got.Payload)
+			}
 		}
 		if err != nil {
 			return failf("step %d: %s reading message id %d (type %d, %d bytes, cut with %d): %v", k, peer[s.E], s.M.ID, s.M.Type, s.M.Len, s.Cs, err)
@@ -266,6 +270,14 @@ func runSession(c *rp.Ctx, cs sessionCase, seg string, lockstep bool) (res *fail
 			return failf("step %d: the message id %d that %s had read changed after later reads: %v", h.k, h.s.M.ID, peer[h.s.E], err)
 		}
 	}
+	// exactly that sequence: the endpoints have gone quiet, nothing is written behind the last message of a direction,
+	// and a further read finds no message nobody wrote
+	for _, e := range []string{"A", "B"} {
+		rp.Alive()
+		if m, err := end[e].ReadMessage(); err == nil {
+			return failf("%s read all %d messages its peer wrote and then one more that nobody wrote: type %d, %d bytes", e, len(cs.Steps), m.MessageType, len(m.Payload))
+		}
+	}
 	// nothing may be fabricated: a reader never has more than was written
 	if a.In.Consumed() > b.Out.Len() || b.In.Consumed() > a.Out.Len() {
 		return failf("reader consumed more than was written")
@@ -283,6 +295,7 @@ func init() {
 			panic("case without a complete schedule")
 		}
 		n := cs.bytes()
+		idx := i
 		i = rp.ContentHash(raw) // per-case choices derive from the content, so the case replays alone identically
 		type mode struct {
 			seg      string
@@ -296,7 +309,8 @@ func init() {
 			modes = append(modes, mode{"one", i%2 == 1})
 		}
 		for _, m := range modes {
-			if f := runSession(c, cs, m.seg, m.lockstep); f != nil {
+			rp.Alive()
+			if f := runSession(c, idx, cs, m.seg, m.lockstep); f != nil {
 				return rp.Result{OK: false, What: fmt.Sprintf("[segmentation %s, lockstep %v] %s", m.seg, m.lockstep, f.what), Deviation: f.deviation}
 			}
 		}
